@@ -1024,4 +1024,19 @@ theorem c14_new_location_slots_fresh_and_distinct (cfg : RichCfg) (table b : Lis
   intro k' hk' hp'
   exact placedSlots_position_unique ress hs.1 k' k hk' hk s hp' hp
 
+/-- **references to switches that have a number do not depend on the iteration order**: in two saves of one map under
+any two iteration orders, a reference to a switch carrying number `i` that both saves can write is written as the
+same number in both (namely `i`).  Together with `c14_switch_rebuild_new_numbers_order_free` (the numbers handed to
+new switches are the first k free numbers under every order) the two outputs differ at most in which new switch got
+which of those k numbers. -/
+theorem c14_numbered_switch_reference_order_free {cfg : RichCfg} {secs : List RSection} (o1 o2 : Option (List Nat))
+    {tbl1 tbl2 : List RSwitch} {ids1 ids2 : List (RSwitch × Nat)}
+    (h1 : rebuildSwnm cfg secs o1 = .ok (tbl1, ids1)) (h2 : rebuildSwnm cfg secs o2 = .ok (tbl2, ids2))
+    (ctx1 ctx2 : EncCtx) (hc1 : ctx1.switchIds = ids1) (hc2 : ctx2.switchIds = ids2)
+    (s : RSwitch) (i : Nat) (hs : s.idx = some i)
+    (hu1 : ∀ p ∈ ids1, p.1.uid = s.uid → p.1.idx = s.idx) (hu2 : ∀ p ∈ ids2, p.1.uid = s.uid → p.1.idx = s.idx)
+    (j1 j2 : Nat) (hj1 : switchId ctx1 s = some j1) (hj2 : switchId ctx2 s = some j2) : j1 = j2 := by
+  rw [Props.C09.c09_numbered_switch_written_as_its_number h1 ctx1 hc1 s i hs hu1 j1 hj1,
+      Props.C09.c09_numbered_switch_written_as_its_number h2 ctx2 hc2 s i hs hu2 j2 hj2]
+
 end Richchk.Props.C14
